@@ -26,6 +26,9 @@ def main():
         return mod.replay(doc.get('scenario', doc))
     if args.selftest:
         return mod.selftest(seed)
+    import glob
+    for old in glob.glob(os.path.join(common.REPLAY_DIR, pid + '_*.json')):      # replays of earlier runs of this check
+        os.remove(old)
     level = getattr(mod, 'LEVEL', 'model_checking')
     ev = common.Evidence(pid, args.tier, seed, level)
     vd = common.Verdicts(pid, ev, getattr(mod, 'SIGNATURES', None))
